@@ -149,7 +149,7 @@ OpenFilePost(dh, nm, mode, h, now, pos) ==
   IN IF i = 0
      THEN /\ dirs' = [dirs EXCEPT ![r.vol][r.id] = PutAt(l, Min2(Max2(pos, 1), Len(l) + 1), NewFileEntry(nm, now))]
           /\ ofiles' = Append(ofiles, [h |-> h, vol |-> r.vol, dir |-> r.id, n |-> nm, rw |-> TRUE,
-                                       off |-> 0, dirty |-> FALSE, mt |-> now, fc |-> 0])
+                                       off |-> 0, dirty |-> FALSE, mt |-> now, fc |-> 0, fcq |-> FALSE])
           /\ UNCHANGED <<ovols, odirs, lim>>
      ELSE LET e == l[i]
               trunc == mode \in {"Truncate", "CreateOrTruncate"}
@@ -159,7 +159,7 @@ OpenFilePost(dh, nm, mode, h, now, pos) ==
              /\ ofiles' = Append(ofiles, [h |-> h, vol |-> r.vol, dir |-> r.id, n |-> nm,
                                           rw |-> (mode # "ReadOnly"),
                                           off |-> IF app THEN Len(e.data) ELSE 0,
-                                          dirty |-> FALSE, mt |-> e2.mt, fc |-> 0])
+                                          dirty |-> FALSE, mt |-> e2.mt, fc |-> 0, fcq |-> FALSE])
              /\ UNCHANGED <<ovols, odirs, lim>>
 
 FileEntry(f) == dirs[f.vol][f.dir][EntIdx(f.vol, f.dir, f.n)]
@@ -187,7 +187,7 @@ WritePost(fh, vals, acc, now, ok, fc) ==
       ei == EntIdx(f.vol, f.dir, f.n)
   IN /\ dirs' = [dirs EXCEPT ![f.vol][f.dir][ei].data = Overwrite(@, f.off, SubSeq(vals, 1, acc))]
      /\ ofiles' = [ofiles EXCEPT ![fi] = [f EXCEPT !.off = f.off + acc, !.dirty = TRUE,
-                                                  !.mt = IF ok THEN now ELSE f.mt, !.fc = fc]]
+                                                  !.mt = IF ok THEN now ELSE f.mt, !.fc = fc, !.fcq = FALSE]]
      /\ UNCHANGED <<ovols, odirs, lim>>
 
 SeekTarget(fh, kind, u) ==
